@@ -15,6 +15,7 @@ import (
 	"math"
 	"math/big"
 	"regexp"
+	"strconv"
 	"strings"
 
 	"github.com/itchyny/gojq"
@@ -248,7 +249,7 @@ func main() {
 	ctx.RunStream(st, lines, impl)
 
 	// ---------- literals are not degraded (oracle, model-free) ----------------------------
-	lit := ctx.NewOracle("literals", "number literals of every lexical shape passed as json.Number through `.`, `[.]`, `{a:.}`, `.[0]` and printed by gojq.Marshal must keep their digits; computed floats must read back equal and NaN/inf print as null/±MaxFloat64; distinct = distinct literals")
+	lit := ctx.NewOracle("literals", "number literals of every lexical shape passed as json.Number through `.`, `[.]`, `{a:.}`, `.[0]` and printed by gojq.Marshal must keep their digits; `abs`, `length`, `-(-.)` on them must denote exactly |x| / x; computed floats must read back equal and NaN/inf print as null/±MaxFloat64; distinct = distinct literals")
 	idq := []*gojq.Code{compile("."), compile("[.] | .[0]"), compile("{a:.} | .a"), compile("[., .] | first"), compile("if . then . else . end"), compile(". as $x | $x")}
 	shapes := []string{"0", "-0", "1", "-1", "10", "100000000000000000000000000000", "-123456789012345678901234567890", "1.0", "1.10", "0.1", "1e2", "1E2", "1e+2", "1e-2", "1.5e300", "0.10000000000000000000000000001",
 		"3.141592653589793238462643383279", "1e1000", "-1e1000", "1e-1000", "9007199254740993", "9223372036854775808", "0.0", "-0.0", "0e0", "1.7976931348623157e309", "123456789.123456789e-5", "5e-324", "4.9e-324", "2.5e-324"}
@@ -349,6 +350,61 @@ func main() {
 			if err != nil || string(b) != s {
 				ctx.Violate("literal:"+s+fmt.Sprint(":", qi), fmt.Sprintf("literal %s passed untouched through query #%d prints as %s", s, qi, b),
 					map[string]any{"literal": s, "query_index": qi, "observed": string(b), "cmd": "echo '" + s + "' | gojq ."})
+			}
+		}
+	}
+	// sign-only functions on literals: abs, length (= abs on numbers) and unary minus twice must
+	// denote exactly |x| / x — whatever carrier the answer comes in, its printed text is compared
+	// as an exact rational (or, for a float64 answer, with the double nearest to the literal)
+	signQ := []struct {
+		src string
+		abs bool
+	}{{"abs", true}, {"length", true}, {"-(-.)", false}, {"[.] | map(abs) | .[0]", true}}
+	for si, s := range shapes {
+		if strings.ContainsAny(s, "eE") {
+			if i := strings.IndexAny(s, "eE"); len(s)-i > 5 {
+				continue // exponents of four and more digits: the exact rational is huge
+			}
+		}
+		want, okr := new(big.Rat).SetString(s)
+		if !okr {
+			continue
+		}
+		for qi, sq := range signQ {
+			if !ctx.Thorough && (si+qi)%2 != 0 && si > 40 {
+				continue
+			}
+			lit.Cases++
+			w := new(big.Rat).Set(want)
+			if sq.abs {
+				w.Abs(w)
+			}
+			it := compile(sq.src).Run(json.Number(s))
+			v, ok := it.Next()
+			if !ok {
+				continue
+			}
+			good := false
+			var shown string
+			switch x := v.(type) {
+			case float64:
+				f, _ := strconv.ParseFloat(s, 64)
+				if sq.abs {
+					f = math.Abs(f)
+				}
+				good, shown = x == f || math.IsInf(f, 0) && math.Abs(x) == math.MaxFloat64, fmt.Sprint(x)
+			case error:
+				shown = "error: " + x.Error()
+			default:
+				b, err := gojq.Marshal(v)
+				shown = string(b)
+				if g, ok2 := new(big.Rat).SetString(string(b)); err == nil && ok2 {
+					good = g.Cmp(w) == 0
+				}
+			}
+			if !good {
+				ctx.Violate("literal-sign:"+sq.src+":"+s, fmt.Sprintf("`%s` on the literal %s gives %s, which does not denote %s", sq.src, s, shown, w.RatString()),
+					map[string]any{"literal": s, "query": sq.src, "observed": shown, "cmd": "echo '" + s + "' | gojq '" + sq.src + "'"})
 			}
 		}
 	}
